@@ -18,7 +18,7 @@ RULE = ("(A) pairs of plain trees with overlapping and disjoint keys at depth <=
         "equal load_tree(model-merged tree) into a fresh configuration, and unresolved includes must fail; "
         "non-trivial = merge pair with an overlapping key, or a file case with >= 1 include processed; distinct = "
         "distinct case content")
-REQUIRED = ("file_cases_first_include_field_declared_again_last", "file_cases_start_directory_is_the_file_system_root", "file_cases_denormalised_absolute_names", "file_cases_include_fields_with_friendly_names", "include_field_declared_after_first_use", "file_cases_same_file_included_twice_in_scope", "file_cases_env_bound_include_fields", "file_cases_tilde_below_startdir", "file_cases_with_format_options", "reloads_after_include_files_rewritten", "startdir_form:rel", "startdir_form:home", "nested_schema_declared_before_includes", "merge_pairs_compared", "merge_purity_checks", "file_cases_compared", "file_cases_nested_include",
+REQUIRED = ("yaml_documents_with_aliased_include_scope", "file_cases_include_inside_a_config_type", "file_cases_first_include_field_declared_again_last", "file_cases_start_directory_is_the_file_system_root", "file_cases_denormalised_absolute_names", "file_cases_include_fields_with_friendly_names", "include_field_declared_after_first_use", "file_cases_same_file_included_twice_in_scope", "file_cases_env_bound_include_fields", "file_cases_tilde_below_startdir", "file_cases_with_format_options", "reloads_after_include_files_rewritten", "startdir_form:rel", "startdir_form:home", "nested_schema_declared_before_includes", "merge_pairs_compared", "merge_purity_checks", "file_cases_compared", "file_cases_nested_include",
             "file_cases_chain", "file_cases_unresolvable_rejected", "file_cases_relative_startdir")
 ASSUMPTIONS = ["documents and include files are produced with the library's own codecs (decided by C04)",
                "the merged tree keeps the include key; included files naming an already processed include field of the "
@@ -78,7 +78,7 @@ def generate(rng, ctx):
               "startdir_root": rng.choice([None, "inc"]), "startdir_sub": rng.choice([None, "inc", "other"]),
               "dynamic_sub": rng.random() < 0.3,
               # the schema has an environment prefix and the variables of some include fields name an existing decoy file
-              "env_inc": rng.random() < 0.2, "named_inc": rng.random() < 0.35, "root_startdir_probe": rng.random() < 0.12, "redeclare_first": rng.random() < 0.25,
+              "env_inc": rng.random() < 0.2, "named_inc": rng.random() < 0.35, "root_startdir_probe": rng.random() < 0.12, "ctype_include_probe": rng.random() < 0.12, "redeclare_first": rng.random() < 0.25,
               # the nested schema may be declared before the scope's own include fields; start directories may be given
               # absolute, relative to the working directory at load time, or relative to the home directory
               "sub_first": rng.random() < 0.5, "startdir_form": rng.choice(["abs", "abs", "rel", "home"])}
@@ -355,10 +355,72 @@ def _root_startdir(cc, ctx, res, fmt, seed):
     return True
 
 
+def _include_in_config_type(cc, ctx, res, fmt, seed):
+    """An include field inside a configuration type that is used as a section (and in a section of that type): merged in the
+    scope that names it, like in a plain nested schema."""
+    d = ctx.dir
+    codec = cc.ConfigFormat.get(fmt)
+    db = cc.Schema()
+    db.host = cc.StringField(default="h")
+    db.port = cc.IntField(default=1)
+    db.include = cc.IncludeField(startdir=d if seed % 2 else None)
+    db.tls.cert = cc.StringField(default="c")
+    db.tls.depth = cc.IntField(default=0)
+    db.tls.extra = cc.IncludeField()
+    schema = cc.Schema()
+    schema.x = cc.IntField(default=0)
+    schema.db = cc.make_type(db, "Database", module="vf_types")
+    cfg = schema()
+    top, low = os.path.join(d, "ct-db.cfg"), os.path.join(d, "ct-tls.cfg")
+    with open(top, "wb") as fp:
+        fp.write(codec.dumps(cfg, {"host": "included-host", "port": 27017}))
+    with open(low, "wb") as fp:
+        fp.write(codec.dumps(cfg, {"depth": 3}))
+    doc = {"x": 4, "db": {"include": "ct-db.cfg" if seed % 2 else top, "host": "main-host", "tls": {"extra": low, "cert": "main.pem"}}}
+    res.count("file_cases_include_inside_a_config_type")
+    try:
+        cfg.loads(codec.dumps(cfg, doc), fmt)
+    except Exception as exc:
+        res.viol("M-include", "config-type-scope:raises", "%s: a document naming include files inside a configuration-type section "
+                 "raised %s: %s" % (fmt, type(exc).__name__, str(exc)[:160]))
+        return False
+    if fmt == "yaml":
+        # a YAML document that refers to one map twice (anchor / alias): what is merged into the scope that names the include
+        # file does not show at the other place
+        s2 = cc.Schema()
+        s2.server.tls.include = cc.IncludeField(startdir=d)
+        s2.server.tls.cert = cc.StringField(default="c")
+        s2.server.tls.depth = cc.IntField(default=0)
+        s2.template = cc.AnyField()
+        c2 = s2()
+        with open(os.path.join(d, "alias-tls.cfg"), "wb") as fp:
+            fp.write(codec.dumps(c2, {"cert": "included.pem", "depth": 3}))
+        text = "server: &srv\n  tls: {include: alias-tls.cfg, cert: main.pem}\ntemplate: *srv\n"
+        res.count("yaml_documents_with_aliased_include_scope")
+        try:
+            c2.loads(text, "yaml")
+            seen = (c2.server.tls.cert, c2.server.tls.depth, c2.template)
+        except Exception as exc:
+            seen = exc
+        if seen != ("included.pem", 3, {"tls": {"include": "alias-tls.cfg", "cert": "main.pem"}}):
+            res.viol("M-include", "aliased-scope", "yaml: the scope that names an include file is also referred to by an alias elsewhere "
+                     "in the document; loaded (server.tls.cert, server.tls.depth, template) = %r" % (seen,))
+            return False
+    got = (cfg.x, cfg.db.host, cfg.db.port, cfg.db.tls.cert, cfg.db.tls.depth)
+    want = (4, "included-host", 27017, "main.pem", 3)
+    if got != want:
+        res.viol("M-include", "config-type-scope:state", "%s: include files named inside a configuration-type section: expected "
+                 "(x, db.host, db.port, db.tls.cert, db.tls.depth) = %r, got %r" % (fmt, want, got))
+        return False
+    return True
+
+
 def run_files(case, ctx, res):
     cc = ctx.cc
     d = ctx.dir
     fmt, layout = case["fmt"], case["layout"]
+    if layout.get("ctype_include_probe") and not _include_in_config_type(cc, ctx, res, fmt, len(case["files"])):
+        return
     if layout.get("root_startdir_probe") and not _root_startdir(cc, ctx, res, fmt, len(case["files"])):
         return
     os.makedirs(os.path.join(d, "inc"), exist_ok=True)
